@@ -503,6 +503,8 @@ fn gen_assign(rng: &mut Rng, k: &Knobs, m: &Model, fault: bool) -> Option<Op> {
   let structured_ok = rng.chance(1, 5);
   let (name, ft) = pick_target(rng, k, m, fault, |b| structured_ok || b.v.is_scalar() || b.v.is_matrix())?;
   let cur = m.store.get(&name).map(|b| b.v.clone());
+  // `x = x`: nothing to compute, and still an assignment — to an immutable x it has to be rejected like any other
+  if rng.chance(1, 10) && matches!(&cur, Some(v) if v.is_scalar() || v.is_matrix()) { return Some(Op::Assign { name: name.clone(), e: Expr::Var(name) }); }
   let e = match cur {
     None => Expr::Lit(gen_scalar(rng, "f64")),
     Some(v) => {
